@@ -207,7 +207,7 @@ def parse(line):
     d = {"A": rr(m.group(1), m.group(2)), "B": rr(m.group(3), m.group(4)), "G": rr(m.group(5), m.group(6)),
          "st": int(m.group(7)), "dat": int(m.group(8)), "lk": int(m.group(9)), "rec": int(m.group(10)),
          "E": ls(m.group(11)), "FE": ls(m.group(12)), "FF": ls(m.group(13))}
-    for k in ("uaf", "fault", "orphan", "stuck", "c1", "c2", "good", "weak"):
+    for k in ("uaf", "fault", "orphan", "stuck", "c1", "c2", "good", "weak", "early", "adone"):
         d[k] = int(kv.get(k, 0))
     for k in ("atA", "atB", "seqA", "seqB"):
         d[k] = kv.get(k, "")
@@ -244,20 +244,22 @@ def run_real(exe, probes, models, slow):
     res = [None] * len(probes)
     i, deaths = 0, 0
     env = core.qenv(3, 1, stack=65536)
+    CHUNK = 500              # one harness process per chunk: bounded run time per process (arena: 8000 variables)
     while i < len(probes) and deaths < 40:
         lines = []
-        for p, m in zip(probes[i:], models[i:]):
+        for p, m in zip(probes[i:i + CHUNK], models[i:i + CHUNK]):
             # c1 (B has to wait for a lock the held A owns): once A is released both run at the same time and B may reach its
             # own hold point owning a lock A needs, so A is then given a short time only as well
             lines.append("m %s %s %d %s %d %d %d %g" % (p + (m["c1"], 1 if (m["c2"] or m["c1"]) else 0, 3.0 if m["uaf"] else slow)))
-        rc, out, err = core.run_lines(exe, lines, timeout=280, env=env)
+        rc, out, err = core.run_lines(exe, lines, timeout=900, env=env)
         if not out or not out[0].startswith("H "):
             raise core.BuildError("c03 micro harness did not start: rc=%s %s %s" % (rc, out[:1], err[-300:]))
         got = [g for g in (parse(l) for l in out[1:]) if g is not None]
         for k, g in enumerate(got[:len(lines)]):
             res[i + k] = g
         if len(got) >= len(lines) and not got[-1]["stuck"]:
-            break
+            i += len(lines)
+            continue
         deaths += 1
         # the harness exits after answering a stuck probe; if it died without answering, the next probe stays unanswered
         i += len(got) if (got and got[-1]["stuck"]) else len(got) + 1
@@ -274,6 +276,13 @@ def gen_probes(ctx, drv, flags, quick, fix_ff, fix_nb):
         if p not in tags:
             tags[p] = tag
             probes.append(p)
+    # (0) corpus: witnesses of past findings and hand-picked slow paths
+    cpath = os.path.join(core.VERIF, "corpus", "C03", "micro_witnesses.probes")
+    if os.path.exists(cpath):
+        for l in open(cpath):
+            t = l.split("#")[0].split()
+            if len(t) == 5 and t[0] in INITS and t[1] in OPS and t[3] in OPS:
+                add((t[0], t[1], int(t[2]), t[3], int(t[4])), "corpus")
     # (a) the use-after-free class: two holds, every pair of hold points the model flags (quick: two per run)
     uaf_q = []
     for (i, a, b), s in zip(triples, solo):
@@ -287,11 +296,13 @@ def gen_probes(ctx, drv, flags, quick, fix_ff, fix_nb):
             for j in hold_points(m["seqB"]):
                 two.append((q[0], q[1], q[2], q[3], j))
         res2 = model_lines(drv, flags, two)
-        hits = [q for q, m in zip(two, res2) if m["uaf"]]
+        # only schedules that determine the outcome (nobody waits for a held lock): the fill-like call is held inside
+        # qthread_syncvar_remove, readFF between its lookup and its record lock
+        hits = [q for q, m in zip(two, res2) if m["uaf"] and not m["c1"] and not m["c2"]]
         hits = rng.shuffle(hits)
         for q in (hits[:2] if quick else hits[:12]):
             add(q, "uaf")
-        near = [q for q, m in zip(two, res2) if not m["uaf"]]
+        near = [q for q, m in zip(two, res2) if not m["uaf"]] + [q for q, m in zip(two, res2) if m["uaf"] and (m["c1"] or m["c2"])][:3]
         for q in rng.shuffle(near)[:(10 if quick else 150)]:
             add(q, "uaf-near")
     else:
@@ -310,6 +321,18 @@ def gen_probes(ctx, drv, flags, quick, fix_ff, fix_nb):
         add(q, "nb")
     for q in rng.shuffle(rest)[:(40 if quick else 400)]:
         add(q, "nb-near")
+    # (b2) a reader / status whose optimistic load meets the lock bit (slow paths that no op-atomic script reaches)
+    slq = []
+    for (i, a, b), s in zip(triples, solo):
+        if b in ("readFF", "readFF_nb", "status"):
+            for k in hold_points(s["seqA"]):
+                slq.append((i, a, k, b, 0))
+    slm = model_lines(drv, flags, slq)
+    slow_readers = [q for q, m in zip(slq, slm) if m["c1"] or (q[3] == "readFF_nb" and m["B"] == ("OPFAIL", None))]
+    for i in INITS:
+        cand = rng.shuffle([q for q in slow_readers if q[0] == i])
+        for q in (cand[:9] if quick else cand):
+            add(q, "reader-meets-lock")
     # (c) everything else: one hold (all triples x all hold points in the thorough tier), and a sample with two holds
     one = []
     for (i, a, b), s in zip(triples, solo):
@@ -384,15 +407,19 @@ def run_micro(ctx, quick, verbose=False):
             findings.setdefault(sig, []).append((why, dict(case, oracle=why)))
         # model == implementation?  (only where the schedule determines the outcome: nobody had to wait for a held lock)
         if m["uaf"]:
-            if verdict == "ok":
+            if verdict == "ok" and not contended:
                 mismatches.append(dict(case, what="the model uses a released record on this schedule, the real code ends in an atomic outcome"))
         elif not contended:
             nexact += 1
             same = all(r[f] == m[f] for f in ("A", "B", "G", "st", "dat", "lk", "rec", "E", "FE", "FF", "atA", "atB", "seqA", "seqB"))
             if not same:
                 mismatches.append(dict(case, what="outcome / access sequence differs from the model"))
-        elif (verdict == "ok") != bool(m["good"]) and verdict != "nb":
-            pass        # contended schedules are not deterministic: only the oracle speaks
+        # contended schedules do not determine the outcome (only the oracle speaks), but progress the model excludes is a fact:
+        # the model says B waits for a lock the held A owns (c1), yet B reached its hold point / its end while A was held
+        if m["c1"] and r["early"] and not r["stuck"]:
+            mismatches.append(dict(case, what="the second call got past a lock which, in the model, the held first call owns"))
+        elif not m["c1"] and m["c2"] and r["adone"] and not r["stuck"]:
+            mismatches.append(dict(case, what="the first call finished while, in the model, it waits for a lock the held second call owns"))
     ctx.cov["micro_all"] = {
         "probes": len(probes), "answered": nrun, "by_class": {t: sum(1 for p in probes if tags[p] == t) for t in sorted(set(tags.values()))},
         "compared_exactly_with_model": nexact, "contended": ncont, "model_predicts_released_record": nuaf_pred,
